@@ -189,3 +189,42 @@ _INFIX = {
     "floordiv": "//",
     "mod": "%",
 }
+
+
+SHAPE_ONLY_OPS = {"np.ones_like", "np.zeros_like", "shape_struct", "np.shape", "np.ndim", "len", "np.empty_like"}
+
+
+def value_atoms(x) -> set:
+    """Atoms a value depends on *by value*: does not descend into shape-only
+    constructs (ones_like / zeros_like / .shape / .ndim / .size / .dtype /
+    tree_map of zeros_like or ones_like / eval_shape results)."""
+    out, seen, stack = set(), set(), [x]
+    while stack:
+        v = stack.pop()
+        if isinstance(v, Term):
+            if v.uid in seen:
+                continue
+            seen.add(v.uid)
+            if v.op == "atom":
+                out.add(v.args[0])
+                continue
+            if v.op in SHAPE_ONLY_OPS:
+                continue
+            if v.op == "attr" and v.args[1] in ("shape", "ndim", "size", "dtype"):
+                continue
+            if v.op == "tree.tree_map" and getattr(v.args[0], "name", None) in ("np.zeros_like", "np.ones_like"):
+                continue
+            stack.extend(v.args)
+            stack.extend(v.kwargs.values())
+        elif isinstance(v, (list, tuple)):
+            stack.extend(v)
+        elif isinstance(v, dict):
+            stack.extend(v.values())
+        elif isinstance(v, slice):
+            stack.extend((v.start, v.stop, v.step))
+        else:
+            ch = getattr(v, "children", None)
+            if ch is not None and ("o", id(v)) not in seen:
+                seen.add(("o", id(v)))
+                stack.extend(ch())
+    return out
